@@ -266,6 +266,15 @@ def run(ctx, chk):
              "bytes (shared with C07.size-header)")
     from props.c07 import check_header_partition
     check_header_partition(chk, "C20.size-header", prog, cache)
+    chk.rule("C20.capacity-field", "a block installed as a container's storage comes with its element capacity, and a recorded capacity is the one the "
+             "installed block was requested with: the slots between count and capacity exist (the capacity recorded never exceeds what the allocator granted; shared with C12.capacity-field)")
+    import ownership as _Ocf
+    from props.c12 import check_capacity_field as _ccf
+    _ccf(chk, "C20.capacity-field", prog, eff, _Ocf.PathCache(prog, eff))
+    chk.rule("C20.atomic", "a container operation that reports failure has changed nothing: no store through the container on a path that returns "
+             "false - in particular no capacity grown before the memory behind it was obtained (shared with C06.atomic / C12.atomic)")
+    from props.c06 import check_atomic as _cat
+    _cat(chk, "C20.atomic", prog, _Ocf.PathCache(prog, eff))
     chk.exhaustive = True
 
 
